@@ -1,5 +1,4 @@
-\* quick, exhaustive safety (defaults): 2 documents, 2 writers, 3 reservations, CachePendingSeqMaxNum 1, one-shot resume client,
-\* every feed behaviour (reorder, one redelivery, coalescing), failing and dying writers, timed abandonment.  Variants by environment (MC_Pipeline.tla).
+\* thorough: 4 reservations (counter <= Base + 4)
 CONSTANT Docs <- EDocs
 CONSTANT Writers <- EWriters
 CONSTANT Base <- EBase
@@ -14,7 +13,7 @@ CONSTANT Clients <- EClients
 CONSTANT ContKeepsLow <- EKeepLow
 CONSTANT RecentCutAtUnused <- ERecentCut
 CONSTANT Mut <- EMut
-CONSTANT MaxSeq <- EMaxSeq
+CONSTANT MaxSeq <- EMaxSeqT
 CONSTANT MaxNum <- EMaxNum
 CONSTANT MaxSteps = 0
 CONSTANT RecordHist = FALSE
